@@ -36,12 +36,33 @@ pub(crate) fn sym_now() -> Time {
     stub_now()
 }
 
+/// Moves the harness clock forward to a later symbolic instant inside the
+/// window (between two calls into the code under test, never during one).
+pub(crate) fn advance_now() -> Time {
+    let s: u32 = kani::any();
+    kani::assume(s < WINDOW_S);
+    kani::assume(s > unsafe { NOW_OFFSET_S });
+    unsafe { NOW_OFFSET_S = s; }
+    #[cfg(test)]
+    unsafe { std::env::set_var("VK_FAKE_NOW", (1_704_067_200i64 + s as i64).to_string()); }
+    stub_now()
+}
+
+pub(crate) fn now_offset() -> u32 { unsafe { NOW_OFFSET_S } }
+
 /// Replacement body for `rpki::repository::x509::Time::now`.
 pub(crate) fn stub_now() -> Time {
     t0() + Duration::seconds(unsafe { NOW_OFFSET_S } as i64)
 }
 
 //------------ fixtures --------------------------------------------------------
+
+/// `HashMap::new()` draws its seed through a getrandom syscall, which CBMC
+/// cannot execute; the seed is irrelevant to every property checked here.
+/// Replacement body for `std::hash::RandomState::new`.
+pub(crate) fn fixed_random_state() -> std::hash::RandomState {
+    unsafe { std::mem::transmute::<(u64, u64), std::hash::RandomState>((0u64, 0u64)) }
+}
 
 /// A timing configuration with every lifetime/margin an arbitrary value below
 /// `cap` (weeks resp. hours).
